@@ -301,13 +301,21 @@ const (
 	c28FOffset c28Flags = 1 << iota // bare selector: " offset %d" without unit
 	c28FSubq                        // subquery suffix "[%d:%d]" and " offset %d" without units
 	c28FMulti                       // OriginalOffsetEx not printed
-	c28FAll    = c28FOffset | c28FSubq | c28FMulti
+	c28FNameless                    // selector without metric name: braces dropped when no matcher is printed, `__name__=""` skipped
+	c28FIgnEmpty                    // `ignoring ()` with group_left/group_right: the whole modifier is dropped
+	c28FPlusInf                     // +Inf printed with its sign ("+Inf ^ 2", "+Inf[5m:]" then parse as unary plus around the operation)
+	c28FAll    = c28FOffset | c28FSubq | c28FMulti | c28FNameless | c28FIgnEmpty | c28FPlusInf
 )
+
+var c28FlagList = []c28Flags{c28FOffset, c28FSubq, c28FMulti, c28FNameless, c28FIgnEmpty, c28FPlusInf}
 
 var c28FlagKeys = map[c28Flags]string{
 	c28FOffset: "C28/print/offset-no-unit",
 	c28FSubq:   "C28/print/subquery-no-unit",
 	c28FMulti:  "C28/print/multi-offset-lost",
+	c28FNameless: "C28/print/nameless-selector-braces-dropped",
+	c28FIgnEmpty: "C28/print/ignoring-empty-group-modifier-lost",
+	c28FPlusInf:  "C28/print/plus-inf-sign",
 }
 
 func c28RefAt(ts *int64, soe ItemType) string {
@@ -335,13 +343,13 @@ func c28RefMulti(ex []int64, f c28Flags) string {
 func c28RefSel(v *VectorSelector, f c28Flags, withMods bool) string {
 	var ls []string
 	for _, m := range v.LabelMatchers {
-		if m.Name == "__name__" && m.Type == 0 && m.Value == v.Name {
+		if m.Name == "__name__" && m.Type == 0 && m.Value == v.Name && (v.Name != "" || f&c28FNameless != 0) {
 			continue
 		}
 		ls = append(ls, m.String())
 	}
 	s := v.Name
-	if len(ls) != 0 {
+	if len(ls) != 0 || (v.Name == "" && f&c28FNameless == 0) {
 		sort.Strings(ls)
 		s += "{" + strings.Join(ls, ",") + "}"
 	}
@@ -383,7 +391,8 @@ func c28Ref(n Node, f c28Flags) string {
 		if e.ReturnBool {
 			s += " bool"
 		}
-		if vm := e.VectorMatching; vm != nil && (len(vm.MatchingLabels) > 0 || vm.On) {
+		if vm := e.VectorMatching; vm != nil && (len(vm.MatchingLabels) > 0 || vm.On ||
+			(f&c28FIgnEmpty == 0 && (vm.Card == CardManyToOne || vm.Card == CardOneToMany))) {
 			if vm.On {
 				s += " on ("
 			} else {
@@ -429,6 +438,9 @@ func c28Ref(n Node, f c28Flags) string {
 		}
 		return s
 	case *NumberLiteral:
+		if f&c28FPlusInf == 0 && math.IsInf(e.Val, 1) {
+			return "Inf"
+		}
 		return fmt.Sprint(e.Val)
 	case *ParenExpr:
 		return "(" + c28Ref(e.Expr, f) + ")"
@@ -508,9 +520,23 @@ func c28Judge(input string, e Expr, printed string) []c28Finding {
 	wit := func(extra string) map[string]any {
 		return map[string]any{"input": input, "printed": printed, "failure": o.detail, "attribution": extra}
 	}
-	base := c28RoundTrip(e, c28Ref(e, 0))
+	ref0 := c28Ref(e, 0)
+	base := c28RoundTrip(e, ref0)
+	// only the defect emulations that change the text of this tree take part in the search
+	var rel []c28Flags
+	for _, f := range c28FlagList {
+		if c28Ref(e, f) != ref0 {
+			rel = append(rel, f)
+		}
+	}
 	match, found := c28Flags(0), false
-	for s := c28Flags(0); s <= c28FAll; s++ {
+	for bits := 0; bits < 1<<len(rel); bits++ {
+		s := c28Flags(0)
+		for i, f := range rel {
+			if bits&(1<<i) != 0 {
+				s |= f
+			}
+		}
 		if c28Ref(e, s) == printed {
 			match, found = s, true
 			break
@@ -518,7 +544,7 @@ func c28Judge(input string, e Expr, printed string) []c28Finding {
 	}
 	if found && match != 0 && base.ok {
 		var out []c28Finding
-		for _, f := range []c28Flags{c28FOffset, c28FSubq, c28FMulti} {
+		for _, f := range c28FlagList {
 			if match&f == 0 {
 				continue
 			}
@@ -528,7 +554,7 @@ func c28Judge(input string, e Expr, printed string) []c28Finding {
 			}
 		}
 		if len(out) == 0 {
-			for _, f := range []c28Flags{c28FOffset, c28FSubq, c28FMulti} {
+			for _, f := range c28FlagList {
 				if match&f != 0 {
 					out = append(out, c28Finding{Key: c28FlagKeys[f], What: c28FlagWhat[f], Witness: wit("jointly with the other emulated defects")})
 				}
@@ -547,4 +573,7 @@ var c28FlagWhat = map[c28Flags]string{
 	c28FOffset: "VectorSelector.String prints `offset N` without a unit: the text does not parse",
 	c28FSubq:   "SubqueryExpr prints `[R:S]` / `offset N` without units: the text does not parse",
 	c28FMulti:  "`offset [a, b]` (OriginalOffsetEx) is not printed: the reparsed selector lost it",
+	c28FNameless: "a selector without metric name prints no braces when no matcher is printed (`{}` → empty text) and drops `__name__=\"\"`",
+	c28FIgnEmpty: "`ignoring () group_left/right (…)` prints no matching modifier at all: the cardinality is lost",
+	c28FPlusInf:  "+Inf prints with its sign; before `^` or `[` the text parses as a unary plus around the whole operation",
 }
